@@ -4,7 +4,7 @@ from pathlib import Path
 LIBS = ["libavoid"]
 HARNESS = "harness/c05.cpp"
 DRIVER_MODE = "c05"
-LEAN_MODULES = ["AdaptaVerif.Props.C05", "AdaptaVerif.Props.C05Tie", "AdaptaVerif.Props.C05AStar"]
+LEAN_MODULES = ["AdaptaVerif.Props.C05", "AdaptaVerif.Props.C05Tie", "AdaptaVerif.Props.C05AStar", "AdaptaVerif.Props.C05OrthVis"]
 LEVEL = "translation_validation"
 LEVEL_TEXT = ("Sentence 3 (estimator never overestimates) is a Lean theorem for all rational inputs about a "
               "hand model of bends()/estimatedCostSpecific() (bends_admissible, bends_tight, bends_total, "
@@ -24,8 +24,12 @@ LEVEL_NOTE = ("The A* search itself IS modelled (Model/AStar.lean: node = (verte
               "be vertex-for-vertex the model's route (cost() and ANodeCmp are also called directly). The estimator is NOT "
               "consistent with cost() (estimator_inconsistent_into_cost_target / _doubling_back; the driver classifies the "
               "first inconsistent edge of sampled graphs), so optimality of the real search is not a theorem - it stays validated "
-              "per scene by the certificates below. Not modelled: the scan-line construction of the orthogonal visibility graph, "
-              "pins, checkpoints, clusters, crossing penalties; a lost optimum shows up only as a "
+              "per scene by the certificates below. The scan-line construction of the orthogonal visibility graph IS modelled (Model/OrthVis.lean: both sweeps with the "
+              "limits of findFirstPointAboveAndBelow / firstPointAbove/Below, segment merging, crossings, the breakpoint edge generator with "
+              "bypass edges and direction restrictions, the outside rule) and tied by exact edge-set equality with the dumped "
+              "Router::visOrthogGraph on every scene (Props/C05OrthVis: every model edge is axis-parallel and enters no routing box that "
+              "holds no end point, for all scenes). Not modelled: "
+              "pins, checkpoints, clusters, crossing penalties, orthogVisPropFlags; a lost optimum shows up only as a "
               "cost gap on a generated scene. 'An optimal orthogonal path exists on the Hanan grid' is taken as "
               "the oracle's definition (classical fact, not proved). The estimator theorems are about the model; "
               "its tie to the C++ is sampled (complete over sign classes, which is all bends() depends on). "
@@ -60,7 +64,13 @@ RULE = ("case 0: exhaustive bends() over offsets {-2..2}^2 minus origin x 4 x 4 
         "edges in one direction to different points), and the sequence of nodes the real search pops (library DebugHandler tap: "
         "vertex + previous vertex of every bestNode) must equal the model's DONE list; with the optional hook "
         "harness/c05_astar_hook.patch also g, exploredCount, PENDING.size() and the timestamp counter at the goal; class astar-kernels: cost() on random point triples (orthogonal connector, penalties "
-        "0/0.75/2.5/10/50/200, reverseDirectionPenalty) and ANodeCmp on (f, timeStamp) pairs around 1e-7, called directly")
+        "0/0.75/2.5/10/50/200, reverseDirectionPenalty) and ANodeCmp on (f, timeStamp) pairs around 1e-7, called directly; "
+        "on every scene with a raw graph dump the Lean model of the graph BUILDER (Model/OrthVis) is run on the scene and its edge set "
+        "(exact points, connector-end-point or not) must equal the dumped one, every dumped edge weight must be the edge's length and no "
+        "dumped edge may enter a routing box that holds no end point; classes ovis-touch / -overlap / -collinear / -extreme / -inshape / "
+        "-multi (harness/c05_orthvis.h: touching and aligned rectangles, overlapping routing boxes, end points on side lines and on sides, "
+        "end points on the extreme sweep positions with single-direction flags, end points inside (nested) rectangles, 3-6 connectors with "
+        "collinear / coincident ends) carry only scene + graph")
 TRUSTED_BASE = ["Lean 4.33 kernel", "axioms: propext, Classical.choice, Quot.sound",
                 "cpp2lean translator + clang AST (bends(), direction helpers, estimatedCostSpecific, ANodeCmp, orthogTurnOrder, Dot, CrossLength regenerated each run, bridge lemmas to the model; cross-checked by the correspondence)",
                 "hand model of cost() (atan2-based bend classification), of the search loop and of the pathNext read-back: tied by exact correspondence only (route() = model route on every scene; cost() and ANodeCmp called directly)",
